@@ -396,6 +396,7 @@ class Rewriter:
 # generator
 # --------------------------------------------------------------------------
 HEADER = '''// GENERATED by /verif/tools/extract.py from /repo/src -- do not edit.
+#![feature(allocator_api)]
 #![allow(unused_imports, unused_variables, unused_mut, dead_code, unused_assignments, unused_parens, non_snake_case, unused_braces)]
 use vstd::prelude::*;
 use vstd::std_specs::ops::*;
@@ -558,10 +559,25 @@ class Generator:
         if isp is not None:
             isp.used = True
             out.splice(isp.body.get('begin', ''), 'impl ' + short_impl(header), 'impl-begin')
+        is_trait_impl = re.search(r'\bfor\b', header) is not None
+        sib_props = sorted({p for c in fns for p in (self.specs[(rel, header, c.name)].props
+                                                      if (rel, header, c.name) in self.specs else [])})
         for ch in it.children:
             if ch.kind == 'fn':
                 if (rel, header, ch.name) in self.specs:
                     self.emit_fn(out, rel, header, ch, unit, vacuity, indent='    ')
+                elif is_trait_impl:
+                    # A method of a trait impl under contract that has no contract of its own (e.g. an
+                    # overridden provided method): emitted verbatim so that it is checked against the
+                    # trait's own specification (vstd); it belongs to the properties of its siblings.
+                    sp = FnSpec(rel, header, ch.name, 'auto (trait impl member without contract)')
+                    sp.props = sib_props
+                    sp.noret = True
+                    self.specs[(rel, header, ch.name)] = sp
+                    try:
+                        self.emit_fn(out, rel, header, ch, unit, vacuity, indent='    ')
+                    finally:
+                        del self.specs[(rel, header, ch.name)]
                 else:
                     self.dropped.append('%s::%s::%s' % (rel, short_impl(header), ch.name))
             elif ch.kind in ('type', 'const'):
